@@ -16,8 +16,9 @@ import common
 from common import Check
 
 PID = "C17"
-WORKERS = min(8, common.NCPU)
+WORKERS = max(1, min(int(os.environ.get("VERIF_WORKERS", "8")), common.NCPU))
 TOL = 1e-6
+RAY_BUDGET = 6000      # worst-case ray/mesh queries of one object case (all occluder subsets)
 
 
 # ------------------------------------------------------------------ small vector helpers (placement only)
@@ -278,6 +279,32 @@ def gen_object_case(rng, idx):
     if rng.random() < 0.15:
         viewer.pop("viewRayDensity", None)
         viewer["viewRayCount"] = [rng.choice([40, 80, 160]), rng.choice([40, 80])]
+    # ray budget: the cost of a case is (rays in the target's angular window) x (ray/mesh queries over all occluder
+    # subsets); a few close, large, fully screened targets used to take most of the run.  Lower the ray density
+    # (then drop extra occluders) until the worst-case cost fits.
+    ang = math.pi if dist < 1.9 * size else 2 * math.asin(min(1.0, 1.8 * size / dist))
+    wh = min(h, ang / max(0.2, math.cos(min(1.4, abs(alt) + ang / 2))))
+    wv = min(v, ang)
+    while True:
+        n = len(occ)
+        queries = (1 << n) * (1 + n / 2.0)
+        if "viewRayCount" in viewer:
+            rc = viewer["viewRayCount"]
+            rays = max(1.0, wh / h * rc[0]) * max(1.0, wv / v * rc[1])
+        else:
+            dn = viewer["viewRayDensity"]
+            rays = max(1.0, math.degrees(wh) * dn) * max(1.0, math.degrees(wv) * dn)
+        if rays * queries <= RAY_BUDGET:
+            break
+        f = math.sqrt(RAY_BUDGET / (rays * queries))
+        if "viewRayCount" in viewer and min(viewer["viewRayCount"]) > 12:
+            viewer["viewRayCount"] = [max(12, int(x * f)) for x in viewer["viewRayCount"]]
+        elif "viewRayDensity" in viewer and viewer["viewRayDensity"] > 0.25:
+            viewer["viewRayDensity"] = max(0.25, round(viewer["viewRayDensity"] * f, 3))
+        elif n > 1:
+            occ.pop()
+        else:
+            break
     return dict(id=f"ob{idx}", viewer=viewer, target=tgt, occ=occ, mode=mode, place=dict(az=az, alt=alt, dist=dist))
 
 
@@ -635,10 +662,11 @@ def main():
     t0 = time.time()
     # ---------------------------------------------------------------- (d) plumbing
     plres = run_chunks("plumbing", pls) if pls else {}
+    # one driver process for all scenarios (process start-up dominates otherwise)
+    pl_cmds, pl_slices = [], {}
     for case in pls:
         r = plres.get(case["id"])
         if r is None or "crash" in r or "exc" in r:
-            c.violation("harness", "plumbing scenario failed to run", dict(case=case, err=r), no_input=True)
             continue
         nobj = len(case["objs"])
         occs = " ".join("1" if o["occluding"] else "0" for o in case["objs"])
@@ -646,7 +674,16 @@ def main():
         cmds = [f"DEF {nobj} {occs} {os_} {pairs(case['obs'])} {pairs(case['non'])} 0 {len(case['rv'])} {' '.join(map(str, case['rv']))}".strip()
                 for os_ in ("0", "1")]
         cmds += [f"OP {nobj} {occs} 0 {y}" for _, _, y in case["ops"]]
-        mo = common.run_driver(exe, cmds)
+        pl_slices[case["id"]] = (len(pl_cmds), len(pl_cmds) + len(cmds))
+        pl_cmds += cmds
+    pl_out = common.run_driver(exe, pl_cmds) if pl_cmds else []
+    for case in pls:
+        r = plres.get(case["id"])
+        if r is None or "crash" in r or "exc" in r:
+            c.violation("harness", "plumbing scenario failed to run", dict(case=case, err=r), no_input=True)
+            continue
+        a, b = pl_slices[case["id"]]
+        mo = pl_out[a:b]
 
         def verdict(defline):
             ok = True
